@@ -25,16 +25,38 @@ P = ("C02", "C03", "C05", "C06")
 Contract("workload.workload.Workload.get_task_graph", inline=True, props=P)
 Contract("workers.workers.WorkerPools.get_worker_pool", inline=True, props=P)
 
-REMT = z3.Function("task_remaining_time", z3.ArraySort(z3.IntSort(), z3.IntSort()), z3.ArraySort(z3.IntSort(), T.sort(OptET)), z3.IntSort(), T.sort(ETy))
+SLOWEST_ = z3.Function("slowest_strategy", z3.IntSort(), z3.IntSort())
+
+
+def REMT(state_arr, rem_arr, task, h=None):
+    """kept for the scheduler specs: remaining time as a function of the task's state and stored remaining time"""
+    return z3.Function("task_remaining_time", z3.ArraySort(z3.IntSort(), z3.IntSort()), z3.ArraySort(z3.IntSort(), T.sort(OptET)), z3.IntSort(), T.sort(ETy))(state_arr, rem_arr, task)
+
+
+def remaining_time_spec(h, t):
+    """Task.remaining_time, from its docstring: zero when done, the stored remaining time while scheduled / running /
+    preempted / evicted, otherwise the runtime of the slowest strategy"""
+    s = h.rd(t, TASK, "_state")[1]
+    rem = h.rd(t, TASK, "_remaining_time")[1]
+    prof = h.rd(t, TASK, "_profile")[1]
+    strategies = h.rd(prof, "workload.profile.WorkProfile", "_execution_strategies")[1]
+    slow = h.rd(SLOWEST_(strategies), "workload.strategy.ExecutionStrategy", "_runtime")[1]
+    return z3.If(z3.Or(s == COMPLETED, s == CANCELLED), mk(z3.IntVal(0), z3.IntVal(0)), z3.If(z3.Or(s == RUNNING, s == PREEMPTED, s == EVICTED, s == SCHEDULED), get(rem), slow))
+
 
 Contract(
     "workload.tasks.Task.remaining_time",
     params={"self": S_.Task.ty},
     ret=ETy,
-    trusted=True,
-    ensures=lambda c: c.res == REMT(c.pre.fld_arr(TASK, "_state")[2], c.pre.fld_arr(TASK, "_remaining_time")[2], c.arg("self")),
-    note="Task.remaining_time: a pure function of the task's state and remaining time (zero when done, the stored remaining time when scheduled/running, otherwise the slowest strategy's runtime); only its functionality is used",
-    props=P + ("C13",),
+    requires=lambda c: {"wf": wf_task(c.pre, c.arg("self"))},
+    may_raise=("AttributeError",),
+    ensures=lambda c: {
+        "remaining_time.by_state": c.res == remaining_time_spec(c.pre, c.arg("self")),
+        "remaining_time.functional": c.res == REMT(c.pre.fld_arr(TASK, "_state")[2], c.pre.fld_arr(TASK, "_remaining_time")[2], c.arg("self")),
+    },
+    entry_facts=lambda c: [Fact("spec.def", REMT(c.pre.fld_arr(TASK, "_state")[2], c.pre.fld_arr(TASK, "_remaining_time")[2], c.arg("self")) == remaining_time_spec(c.pre, c.arg("self")))],
+    note="the uninterpreted REMT used by the scheduler specs is *defined* as the by-state expression (entry fact spec.def); AttributeError when the task has no strategies",
+    props=P + ("C13", "C03"),
 )
 
 Contract(
